@@ -312,6 +312,20 @@ func TestVerifC20(t *testing.T) {
 					_ = va.app.stateCandidate()
 					va.app.checkRecovery()
 				}()
+				// the master answers the probe with an error mysync classifies as dubious (1040 too many connections): the
+				// one-shot probe handle must be closed on that path too
+				if k%3 == 2 {
+					func() {
+						defer func() { _ = recover() }()
+						w.Mu.Lock()
+						w.Faults = []*vk.Fault{{Host: "h1", Kind: "SPing", Nth: 0, Action: "err:1040"}}
+						w.Mu.Unlock()
+						_, _ = va.app.cluster.PingNode("h1")
+						w.Mu.Lock()
+						w.Faults = nil
+						w.Mu.Unlock()
+					}()
+				}
 				// a host leaves the registry while a loop of this process still holds its handle (it got it from Cluster.Get
 				// a moment ago) and uses it once more; then the host is registered again
 				if k%4 == 2 {
